@@ -143,6 +143,16 @@ import (
 func VerifSetNow(f func() time.Time) { internal.VerifNowFn = f }
 
 func verifNow() time.Time { return internal.VerifNow() }
+
+// VerifKeyIDs returns the system-key and intermediate-key ids the SDK derives for a partition (suffix "" = no region suffix).
+func VerifKeyIDs(partition, service, product, suffix string) (string, string) {
+	if suffix != "" {
+		p := newSuffixedPartition(partition, service, product, suffix)
+		return p.SystemKeyID(), p.IntermediateKeyID()
+	}
+	p := newPartition(partition, service, product)
+	return p.SystemKeyID(), p.IntermediateKeyID()
+}
 '''
 
 HOOK_INTERNAL = '''//go:build verif
